@@ -39,9 +39,6 @@ def run(ctx):
     ctx.step(c12.publish, ctx, "C07.publish")
     ctx.step(c05.register, ctx, "C07.publish-log")
     ctx.step(common.rcu_writer_guard, ctx, "C07.rcu-writers")
-    ctx.step(common.raii_only, ctx, "C07.raii", ["lr_guarded.hpp", "rcu_list.hpp", "deferred_guarded.hpp", "cow_guarded.hpp",
-                                                  "handles.hpp", "TripWire.hpp", "Latch.hpp", "TriggerVariable.hpp", "Barrier.hpp"],
-             floor=100)
     if ctx.tier == "thorough":
         from ..ircheck import cross_check
         ctx.step(cross_check, ctx, "C07.ir", REPO, (0, 1, 2, 3))
